@@ -24,7 +24,17 @@ VD2 == ClampedDirs({1, 2}, <<Half>>, 1)
 VolSet == IF VolMode = 0 THEN {} ELSE
   {s \in Volumes(VD2, VD2, IF VolMode = 1 THEN VD1 ELSE VD2 \cup UniformDirs({1}, 1), BOOLEAN, Seed) :
        DiffSizes(s) \/ (VolMode > 1 /\ Cardinality(RangeOf(s.size)) >= 2)}
-Shapes == CurveSet \cup SurfSet \cup VolSet
+\* long, strongly non-uniform knot vectors (more than 8 spans)
+LongDirs == {<<p, MkClamped(p, v, [i \in 1..Len(v) |-> IF p = 2 /\ i % 4 = 0 THEN 2 ELSE 1])>> :
+               p \in {1, 2}, v \in {<<R(1,2), R(5,8), R(3,4), R(13,16), R(7,8), R(29,32), R(15,16), R(31,32), R(63,64)>>,
+                                      <<R(1,64), R(1,32), R(1,16), R(3,32), R(1,8), R(3,16), R(1,4), R(3,8), R(1,2), R(3,4)>>}}
+LongSet == Curves(LongDirs, {2}, BOOLEAN, Seed)
+\* non-normalised volumes / surfaces whose directions have different parametric ranges
+RawU == <<2, AffineKV(MkClamped(2, <<Half>>, <<1>>), RI(3), RI(0))>>
+RawV == <<1, AffineKV(MkClamped(1, <<Half>>, <<1>>), RI(2), RI(-1))>>
+RawW == <<1, AffineKV(MkClamped(1, <<Half>>, <<0>>), R(1,2), RI(4))>>
+RawSet == IF VolMode = 0 THEN {} ELSE Volumes({RawV}, {RawU}, {RawW}, BOOLEAN, Seed) \cup Surfaces({RawU}, {RawV}, {3}, {TRUE}, Seed)
+Shapes == CurveSet \cup SurfSet \cup VolSet \cup LongSet \cup RawSet
 
 Init == sh \in Shapes /\ out = [op |-> "init"]
 
